@@ -64,7 +64,7 @@ def valByName : String → Option JsVal
   | "G4" => some (.goError 4 (.join 4 (.plain 1) (.custom 2)))
   | "G6" => some (.goError 6 (.wrap 6 (.interrupted 5)))
   | "V1" => some (.valObj 1 (.plain 1))
-  | "U1" => some (.objU 1) | "U2" => some (.objU 2)
+  | "U1" => some (.objU 1) | "U2" => some (.objU 2) | "U3" => some (.objU 3)
   | "V2" => some (.obj 2)                       -- {value: 42}: a `value` property that is not a Go error
   | _ => none
 
@@ -90,7 +90,7 @@ def parseFrame : String → Option Frame
   | "XFE" => some .xfe | "XFN" => some .xfn | "PX" => some .px | "GT" => some .gt
   | "FO" => some .fo | "DY" => some .dy | "RP" => some .rp | "PR" => some .pr
   | "FCV" => some .fcv | "RFW" => some .rfw | "JI" => some .ji | "JG" => some .jg | "JGF" => some .jgf
-  | "JA" => some .ja | "JAW" => some .jaw
+  | "JA" => some .ja | "JAW" => some .jaw | "FOT" => some .fot
   | _ => none
 
 def parseChain (s : String) : Option (List Frame) :=
